@@ -42,6 +42,13 @@ CHECKS = {
         note="Bounded size: 4 leaf nodes, one multiplication per tree. n * composite (left multiplication) is not part of the statement and is not demanded.",
         technique="exhaustive enumeration of expression trees evaluated on the implementation against a reference model",
     ),
+    "C19": dict(
+        category="exploration",
+        text="Exhaustive over small inputs: delete + reinsert_atoms for every ordered index subset (size <= 3, list and array form) of atoms objects with 1-5 atoms and 8 sets of per-atom arrays, compared bitwise (names, dtypes, bytes, order) with a copy; search_molecules for every placement of 1-4(5) two-species atoms on a periodic 5-site line and 3x3 grid x 4 cutoffs (scalar below/above spacing, diagonal, per-pair dict) x 4 size filters x 3 default arrays, against a union-find oracle over minimum-image distances.",
+        design_ref="4-C19",
+        note="Trusted: ASE neighbor_list is what the code uses; the oracle is independent (explicit image enumeration). Lattice distances never equal a cutoff.",
+        technique="exhaustive enumeration of small inputs on the implementation against bitwise-copy and union-find oracles",
+    ),
 }
 
 NA_REASON = "check not built yet in this session (design in DESIGN.md); no claim is made"
